@@ -38,6 +38,8 @@ var mgrOps = func() []mgrOp {
 	// not addressed to an existing table: one more table is created in the same manager (and its twin
 	// stand-alone); later calls may address it, and calls addressed to the older tables must still reach them
 	ops = append(ops, mgrOp{method: "CreateTable"})
+	// a creation the engine rejects (more preset players than seats): addressed to a fresh id, or to the id of a live table
+	ops = append(ops, mgrOp{method: "CreateTable-rejected"})
 	return ops
 }()
 
@@ -358,6 +360,32 @@ func c17Run(prefix []int, base string, ntables int, depth int, firstTarget int, 
 				p = pairs[ti]
 				id = p.id
 			}
+			if op.method == "CreateTable-rejected" {
+				cfg := defaultCfg(2)
+				cfg.ID = id
+				if p == nil {
+					cfg.ID = fmt.Sprintf("R%d", d+1)
+				}
+				cfg.Deck = "plain"
+				cfg.Join = []pt.JoinPlayer{{PlayerID: "j1", RedeemChips: 5, Seat: -1}, {PlayerID: "j2", RedeemChips: 5, Seat: -1}, {PlayerID: "j3", RedeemChips: 5, Seat: -1}}
+				_, err := newTDManagedLazy(env, cfg, m)
+				hist = append(hist, "CreateTable-rejected("+cfg.ID+")")
+				env.Settle()
+				if err == nil {
+					return strings.Join(hist, " "), "result-differs@CreateTable", fmt.Sprintf("Manager.CreateTable(%s) with three preset players on two seats returned nil\nhistory: %v", cfg.ID, hist)
+				}
+				if p == nil || p.gone {
+					if _, gerr := m.GetTableEngine(cfg.ID); gerr == nil {
+						return strings.Join(hist, " "), "table-found-after-rejected-create", fmt.Sprintf("Manager.CreateTable(%s) failed (%v) but the id is now known to the manager\nhistory: %v", cfg.ID, err, hist)
+					}
+				} else if te, gerr := m.GetTableEngine(cfg.ID); gerr != nil || (p.mtd.te != nil && te != p.mtd.te) {
+					return strings.Join(hist, " "), "live-table-replaced-by-rejected-create", fmt.Sprintf("Manager.CreateTable(%s) failed (%v); the live table of that id is no longer the one the manager answers for (%v)\nhistory: %v", cfg.ID, err, gerr, hist)
+				}
+				if v := compare("after " + strings.Join(hist, " ")); v != nil {
+					return strings.Join(hist, " "), v.Key + "@" + op.method, v.Detail + "\nbase: " + base + "\nhistory: " + strings.Join(hist, " ")
+				}
+				continue
+			}
 			if op.method == "CreateTable" {
 				if ti != 0 {
 					hist = append(hist, "-")
@@ -451,7 +479,7 @@ func c17Run(prefix []int, base string, ntables int, depth int, firstTarget int, 
 func init() {
 	register(&Check{
 		ID: "C17", Level: "model_checking",
-		Rule:        "a Manager with 2 (quick) / 3 tables next to stand-alone twin engines created with the same settings and driven to the same base state (fresh, players seated, hand at first wager request, standby); every sequence of manager calls (25 methods x {player to act, unknown player, new player}, plus the creation of a further table) of length <= depth addressed to each table and to an unknown id, applied to the manager and mirrored on the addressed table's twin only; results must be equal, every manager table must stay equal to its twin (so bystanders are untouched), unknown / closed / released ids must give the table-not-found error",
+		Rule:        "a Manager with 2 (quick) / 3 tables next to stand-alone twin engines created with the same settings and driven to the same base state (fresh, players seated, hand at first wager request, standby); every sequence of manager calls (25 methods x {player to act, unknown player, new player}, plus the creation of a further table and a creation the engine rejects, addressed to a fresh id or to the id of a live table) of length <= depth addressed to each table and to an unknown id, applied to the manager and mirrored on the addressed table's twin only; results must be equal, every manager table must stay equal to its twin (so bystanders are untouched), unknown / closed / released ids must give the table-not-found error",
 		Assumptions: []string{"the Manager installs its own native backend whose deck is shuffled by an uncontrolled generator, so cards are excluded from the comparison and base hands are fold-outs", "random seats take the first draw on both sides"},
 		Suites: func(tier string) []*Suite {
 			var ss []*Suite
